@@ -236,6 +236,22 @@ def extract_dataframe(
     point_dataset = point_dataset.merge(coord_dataset, join=join, fill_value=fill_value)
     point_dataset = point_dataset.set_coords(coordinate_columns)
 
+    if missing_points == 'fill':
+        # Integer variables are promoted to floats to hold the fill value
+        # for missing points. These can not be saved using the integer
+        # data type of the source file unless there is a _FillValue to use.
+        for variable in point_dataset.variables.values():
+            encoded_dtype = variable.encoding.get('dtype')
+            if (
+                encoded_dtype is not None
+                and numpy.dtype(encoded_dtype).kind in 'iu'
+                and variable.dtype.kind == 'f'
+                and variable.encoding.get('_FillValue') is None
+                and 'scale_factor' not in variable.encoding
+                and 'add_offset' not in variable.encoding
+            ):
+                del variable.encoding['dtype']
+
     # Add CF attributes to the new coordinate variables
     point_dataset[lon_coord].attrs.update({
         "long_name": "Longitude",
